@@ -12,7 +12,7 @@ modelled in Lean.
 -/
 namespace MdIt.C01
 
-theorem skipEmptyLines_spec (s : BState) (fuel from_ : Nat) (hlen : s.lines.length = s.lineMax + 1)
+theorem skipEmptyLines_spec (s : BState) (fuel from_ : Nat) (hlen : s.lineMax + 1 ≤ s.lines.length)
     (hf : s.lineMax - from_ < fuel) :
     from_ ≤ skipEmptyLines s fuel from_ ∧
     (skipEmptyLines s fuel from_ < s.lineMax →
@@ -87,7 +87,7 @@ loop returns normally: no exception, no endless loop; and it leaves line tables,
 `blkIndent` and `level` as it found them (the frame property C07 relies on). -/
 theorem block_total (P : BState → Nat → Prop) (hP : FrameClosed P) (rules : List BRule) (hok : ∀ r ∈ rules, RuleOK P r)
     (hlast : ∃ r ∈ rules, AlwaysMatches P r) (maxNesting : Int) (endLine : Nat) :
-    ∀ (fuel line : Nat) (hasEmpty : Bool) (s : BState), s.lines.length = s.lineMax + 1 → endLine ≤ s.lineMax →
+    ∀ (fuel line : Nat) (hasEmpty : Bool) (s : BState), s.lineMax + 1 ≤ s.lines.length → endLine ≤ s.lineMax →
       P s endLine → endLine - line < fuel →
       ∃ s', blockLoop rules maxNesting endLine fuel line hasEmpty s = .ok s' ∧ s.FrameEq s' := by
   intro fuel
@@ -124,7 +124,7 @@ theorem block_total (P : BState → Nat → Prop) (hP : FrameClosed P) (rules : 
             simp only [hs2]
             have hnle : ¬ (s2.line ≤ line1) := by omega
             simp only [hnle, if_false]
-            have hlen2 : s2.lines.length = s2.lineMax + 1 := by rw [hfr2.1, hfr2.2.1]; exact hlen
+            have hlen2 : s2.lineMax + 1 ≤ s2.lines.length := by rw [hfr2.1, hfr2.2.1]; exact hlen
             have hend2 : endLine ≤ s2.lineMax := by rw [hfr2.2.1]; exact hend
             have hfr3 : s.FrameEq { s2 with tight := !hasEmpty } :=
               ⟨hfr2.1, hfr2.2.1, hfr2.2.2.1, hfr2.2.2.2⟩
@@ -173,7 +173,7 @@ theorem block_total (P : BState → Nat → Prop) (hP : FrameClosed P) (rules : 
 /-- the entry point with the fuel the model gives itself -/
 theorem block_tokenize_total (P : BState → Nat → Prop) (hP : FrameClosed P) (rules : List BRule)
     (hok : ∀ r ∈ rules, RuleOK P r) (hlast : ∃ r ∈ rules, AlwaysMatches P r)
-    (maxNesting : Int) (s : BState) (startLine endLine : Nat) (hlen : s.lines.length = s.lineMax + 1)
+    (maxNesting : Int) (s : BState) (startLine endLine : Nat) (hlen : s.lineMax + 1 ≤ s.lines.length)
     (hend : endLine ≤ s.lineMax) (hPs : P s endLine) :
     ∃ s', blockTokenize rules maxNesting s startLine endLine = .ok s' ∧ s.FrameEq s' :=
   block_total P hP rules hok hlast maxNesting endLine _ startLine false s hlen hend hPs (by omega)
